@@ -411,6 +411,8 @@ def main():
     # ------------------- recorded traces of library routines (code -> spec)
     library_traces(ck, qr, numpy)
     context_methods(ck, qr, numpy)
+    remainder_coupling(ck, qr, numpy)
+    slices_created_inside(ck, qr, numpy)
 
     ck.assume("TLC bound: 3 objects (2 usable as context operators), nesting "
               "<= 2(3), histories <= 9(12) steps; replayed behaviours up to "
@@ -550,6 +552,162 @@ def context_methods(ck, qr, numpy):
             if e > 1e-10:
                 ck.violation("transparent", "secularize-first-in-context",
                              dict(rp, err=e), rp)
+
+
+def remainder_coupling(ck, qr, numpy):
+    """A Hamiltonian whose weak couplings were set aside
+    (remove_cutoff_coupling) carries them as part of its managed state: put
+    back inside a basis context (recover_cutoff_coupling is a write to the
+    object), the Hamiltonian is the complete one in the context basis, and
+    after the context is left - normally or through an exception - it is
+    the complete one in the original representation."""
+    rng = numpy.random.RandomState(ck.seed + 6)
+
+    class Boom(Exception):
+        pass
+    for s in range(8 if ck.thorough else 4):
+        n = 4 + s % 2
+        A = rng.randn(n, n) * 0.3
+        hfull = (A + A.T) / 2
+        hfull[numpy.arange(n), numpy.arange(n)] = numpy.sort(rng.rand(n))
+        cutoff = float(numpy.median(numpy.abs(hfull[numpy.triu_indices(
+            n, 1)])))
+        Bm = rng.randn(n, n)
+        for where in ("own", "other", "nested"):
+            for leave in ("normal", "exception"):
+                rp = dict(kind="remainder-coupling", seed=ck.seed, system=s,
+                          context=where, leave=leave)
+                with ck.guarded("transparent", "remainder-coupling", rp, rp):
+                    with qr.energy_units("int"):
+                        H = qr.Hamiltonian(data=hfull.copy())
+                        H.remove_cutoff_coupling(cutoff)
+                        hcut = numpy.array(H.data)
+                    Aop = qr.qm.SelfAdjointOperator(data=(Bm + Bm.T) / 2)
+                    ops = dict(own=[H], other=[Aop], nested=[Aop, H])[where]
+                    import contextlib
+                    inside = None
+                    try:
+                        with contextlib.ExitStack() as stack:
+                            for op in ops:
+                                stack.enter_context(qr.eigenbasis_of(op))
+                            _ = numpy.array(H.data)
+                            H.recover_cutoff_coupling()
+                            inside = numpy.array(H.data)
+                            if leave == "exception":
+                                raise Boom()
+                    except Boom:
+                        pass
+                    after = numpy.array(H.data)
+                    sc = float(numpy.abs(hfull).max())
+                    e_sp = float(numpy.abs(
+                        numpy.linalg.eigvalsh((inside + inside.conj().T) / 2)
+                        - numpy.linalg.eigvalsh(hfull)).max()) / sc
+                    e_af = float(numpy.abs(after - hfull).max()) / sc
+                    ck.case("remainder-coupling", (s, where, leave),
+                            nontrivial=float(numpy.abs(hcut - hfull).max())
+                            > 0, sample=dict(rp, spectrum_err=e_sp,
+                                             after_err=e_af))
+                    if e_sp > 1e-10:
+                        ck.violation("transparent", "remainder-coupling:" +
+                                     where, dict(rp, spectrum_err=e_sp), rp)
+                    if e_af > 1e-10:
+                        ck.violation("restored" if leave == "normal" else
+                                     "exception", "remainder-coupling:" +
+                                     where, dict(rp, after_err=e_af), rp)
+
+
+def slices_created_inside(ck, qr, numpy):
+    """Objects CREATED inside a context by the public accessors of evolutions
+    (`at(t)` of density-matrix evolutions and of the evolution superoperator):
+    inside they are presented in the context basis; after the context is left
+    (normally or through an exception) both the new object and the evolution
+    it was taken from are in the original representation."""
+    import io
+    import contextlib
+    from quantarhei.qm import LindbladForm
+    rng = numpy.random.RandomState(ck.seed + 8)
+
+    class Boom(Exception):
+        pass
+    for s in range(6 if ck.thorough else 3):
+        n = 2 + s % 3
+        A = rng.randn(n, n)
+        H = (A + A.T) / 2
+        if s % 2:
+            Ai = rng.randn(n, n)
+            H = H + 1j * (Ai - Ai.T) / 2
+        Bm = rng.randn(n, n)
+        ta = qr.TimeAxis(0.0, 4, 1.0)
+        v = rng.randn(n, n) + 1j * rng.randn(n, n)
+        d0 = v.dot(v.conj().T)
+        d0 /= numpy.trace(d0)
+
+        def make(kind):
+            if kind == "eso":
+                ham = qr.Hamiltonian(data=numpy.real(H).copy())
+                K = numpy.zeros((n, n))
+                K[0, n - 1] = 1.0
+                sbi = qr.qm.SystemBathInteraction(
+                    sys_operators=[qr.qm.Operator(data=K)], rates=(0.05,))
+                e = qr.qm.EvolutionSuperOperator(
+                    ta, ham=ham, relt=LindbladForm(ham, sbi,
+                                                   as_operators=False))
+                e.set_dense_dt(2)
+                with contextlib.redirect_stdout(io.StringIO()):
+                    e.calculate()
+                return e
+            r0 = qr.ReducedDensityMatrix(data=d0.copy())
+            cls = (qr.ReducedDensityMatrixEvolution if kind == "rdme"
+                   else qr.DensityMatrixEvolution)
+            ev = cls(ta, r0)
+            for k in range(1, 4):
+                ev.data[k, :, :] = (k + 1) * d0 + 0.1 * k * numpy.eye(n)
+            return ev
+        for kind in ("dme", "rdme", "eso"):
+            for where in ("other", "nested"):
+                for leave in ("normal", "exception"):
+                    rp = dict(kind="slice-created-inside", seed=ck.seed,
+                              system=s, object=kind, context=where,
+                              leave=leave)
+                    with ck.guarded("restored", "slice-created-inside", rp,
+                                    rp):
+                        obj = make(kind)
+                        ref = numpy.array(obj.data).copy()
+                        Aop = qr.qm.SelfAdjointOperator(data=(Bm + Bm.T) / 2)
+                        Hop = qr.qm.SelfAdjointOperator(data=H.copy())
+                        ops = dict(other=[Aop], nested=[Hop, Aop])[where]
+                        x = None
+                        try:
+                            with contextlib.ExitStack() as stack:
+                                for op in ops:
+                                    stack.enter_context(qr.eigenbasis_of(op))
+                                with contextlib.redirect_stdout(
+                                        io.StringIO()):
+                                    x = obj.at(2.0)
+                                _ = numpy.array(x.data)
+                                if leave == "exception":
+                                    raise Boom()
+                        except Boom:
+                            pass
+                        sc = float(numpy.abs(ref).max())
+                        e_new = float(numpy.abs(numpy.array(x.data) - ref[2]
+                                                ).max()) / sc
+                        e_src = float(numpy.abs(numpy.array(obj.data) - ref
+                                                ).max()) / sc
+                        ck.case("slice-created-inside",
+                                (s, kind, where, leave),
+                                sample=dict(rp, new_object_err=e_new,
+                                            source_err=e_src))
+                        clause = "restored" if leave == "normal" else \
+                            "exception"
+                        if e_src > 1e-9:
+                            ck.violation(clause, "at()-inside-context:"
+                                         "source:" + kind,
+                                         dict(rp, err=e_src), rp)
+                        if e_new > 1e-9:
+                            ck.violation(clause, "at()-inside-context:"
+                                         "new-object:" + kind,
+                                         dict(rp, err=e_new), rp)
 
 
 def library_traces(ck, qr, numpy):
